@@ -16,7 +16,7 @@ import (
 // C11 — rebalance converges to the latest assignment, once, without stopping the client.
 
 func c11Spec(rng *rand.Rand, i int) (*SessSpec, string) {
-	placements := []string{"under-flood", "during-BRS-put", "rm-waiting", "single", "during-close-put", "during-close-get", "during-delay", "while-reopening", "right-after", "repeat", "oscillation", "api-burst", "three-sources", "late-waiter"}
+	placements := []string{"under-flood", "during-BRS-put", "rm-waiting", "single", "during-close-put", "during-close-get", "during-delay", "while-reopening", "right-after", "repeat", "oscillation", "api-burst", "three-sources", "late-waiter", "slow-notifier"}
 	pl := placements[i%len(placements)]
 	sp := &SessSpec{NumVB: 4 + rng.Intn(5), Nodes: 1, AckSeed: rng.Int63(), Backend: []string{"mem", "cb", "file"}[rng.Intn(3)], Backlog: map[int][][]ItemSpec{}, Auto: rng.Intn(2) == 0, IntervalMs: 4}
 	sp.Membership = []string{"dynamic", "kubernetesHa", "kubernetesHa"}[rng.Intn(3)]
@@ -118,6 +118,15 @@ func c11Spec(rng *rand.Rand, i int) (*SessSpec, string) {
 		cur = [2]int{-1, -1}
 	case "api-burst":
 		sp.Steps = append(sp.Steps, get(false), Step{Op: "sleep", Ms: d / 4}, put(false), Step{Op: "sleep", Ms: d / 4}, put(false))
+	case "slow-notifier":
+		// the notifying goroutine is held up right after it scheduled the reopen (in the log line that follows), so with a zero
+		// delay the timer goroutine runs the reopen concurrently with the rest of Rebalance()
+		sp.Membership = "dynamic"
+		sp.LogDelayMs = map[string]int{"rebalance delay is disabled on dynamic membership": 20 + 10*(i%3)}
+		sp.Steps = append(sp.Steps, put(false), Step{Op: "waitcycles", N: 1, Ms: 5000})
+		if i%2 == 0 {
+			sp.Steps = append(sp.Steps, put(false), Step{Op: "waitcycles", N: 2, Ms: 5000})
+		}
 	case "late-waiter":
 		// the goroutine that waits for the stream-finished signal of the open being closed is descheduled between
 		// receiving the signal and looking at the rebalance flag (injected delay at hook point wait.signal):
